@@ -343,3 +343,10 @@ Proof.
             (mtcsd_diag_is_psd TwoSided N K Fs w d Y i (N - f)%nat (Hd _)). reflexivity.
   - rewrite (mtcsd_diag_is_psd TwoSided N K Fs w d Y i f (Hd f)). reflexivity.
 Qed.
+
+(* the diagonal = single-channel statement does not depend on how NFFT and the number of samples
+   compare: in particular for a truncating transform (N = NFFT < n) both are normalised by Fs * n *)
+Corollary pcsd_diag_is_periodogram_truncating sd nrm N n Fs X i f : (N < n)%nat ->
+  pcsd sd nrm N n Fs X i i f =c= ofQ (periodogram sd nrm N n Fs (X i) f) /\
+  nrmf nrm Fs n = (if nrm then / (Fs * inj n) else 1).
+Proof. intros _. split; [apply pcsd_diag_is_periodogram|reflexivity]. Qed.
